@@ -901,3 +901,52 @@ def rule_failure_test_alive(ctx):
     ctx.holds("DEADFAIL", "DEADFAIL:all", "-", "%d functions scanned: no call result is narrowed below the constant it is compared with" % n, nontrivial=False)
     ctx.floor("DEADFAIL", 500, n, "(functions scanned)")
     return n
+
+
+def rule_fallback_only_when_absent(ctx):
+    """FALLBACK (C16): opening a file through the SD interface first reads the SD metadata (the CDF Vgroup) and, "if that fails",
+    interprets the file the old way (DFSD data groups).  The fallback is meant for files that *have* no SD metadata.  A read that
+    fails half way through metadata that exists — an I/O error — is a failure of SDstart; reinterpreting the file instead makes
+    SDstart succeed with a wrong picture of it, and later reads return wrong data with success.  In hdf_xdr_cdf the call of the
+    fallback reader is preceded, in the failure arm, by an exit taken when the primary reader had found its metadata (a test of
+    a handle field the primary reader sets only then)."""
+    from .codec import ast_walk
+    from .facts import calls_in
+    prog = ctx.prog
+    f = prog.func("hdf_xdr_cdf")
+    g = prog.func("hdf_read_xdr_cdf")
+    if f is None or g is None or not f.raw.get("ast"):
+        ctx.unrecognised("FALLBACK", "FALLBACK:hdf_xdr_cdf", "-", "hdf_xdr_cdf / hdf_read_xdr_cdf not found")
+        return 0
+    found_fields = {mem_field(x[2])[1] for _b, _i, _s, x in g.nodes(True) if x[0] == "asg" and x[1] == "=" and mem_field(x[2]) and mem_field(x[2])[0] == "NC"}
+    sites = []
+
+    def vis(nd, st):
+        if nd[0] == "block":
+            for i, k in enumerate(nd[1]):
+                if k[0] in ("s", "if") and k[1] is not None and any(c[1] == "hdf_read_sds_cdf" for c in calls_in(k[1], True)):
+                    sites.append((nd[1][:i], k, list(st)))
+        return True
+
+    ast_walk(f.raw["ast"], vis)
+    n = 0
+    for before, k, st in sites:
+        n += 1
+        key = "FALLBACK:hdf_xdr_cdf#%d" % n
+        line = k[-3] if isinstance(k[-3], int) else f.line
+        in_fail_arm = any(s_[0] == "if" and any(c[1] == "hdf_read_xdr_cdf" for c in calls_in(s_[1], True)) for s_ in st)
+        guard = False
+        for b in before:
+            if b[0] == "if" and any(y[0] == "mem" and y[2] in found_fields for y in walk(b[1], True)):
+                arm = b[2]
+                leaves = arm[1] if arm[0] == "block" else [arm]
+                if any(l_[0] in ("goto",) or (l_[0] == "s" and kind(l_[1]) == "ret") or l_[0] == "do" or l_[0] == "block" for l_ in leaves):
+                    guard = True
+        if not in_fail_arm:
+            ctx.unrecognised("FALLBACK", key, f.where(line), "the fallback reader is no longer called in the failure arm of the primary reader")
+        elif guard:
+            ctx.holds("FALLBACK", key, f.where(line), "the fallback reader runs only when the primary reader had not found its metadata (test of %s)" % "/".join(sorted(found_fields)), nontrivial=True)
+        else:
+            ctx.violated("FALLBACK", key, f.where(line), "the old-style reader is called after *any* failure of the SD metadata reader, also an I/O error half way through metadata that exists: SDstart succeeds with a wrong picture of the file")
+    ctx.floor("FALLBACK", 1, n, "(fallbacks to the old-style reader)")
+    return n
